@@ -34,70 +34,92 @@ Definition flt (ids au : option (list pystr)) (ks : option (list Z)) (s u l : op
   {| f_ids := ids; f_authors := au; f_kinds := ks; f_since := s; f_until := u; f_limit := l; f_tags := tg |}.
 
 (* kinds [7]: one block of the kinds index, newest first *)
-Definition f_k7 := flt None None (Some [7]) None None None [].
-Example ex_k7 : exists p, plan_one None (Some 5) f_k7 = Some p /\ execute_one_plan ex_store p = [ev4; ev3] /\ single_block_plan p.
+Definition xf_k7 := flt None None (Some [7]) None None None [].
+Example ex_k7 : exists p, plan_one None (Some 5) xf_k7 = Some p /\ execute_one_plan ex_store p = [ev4; ev3] /\ single_block_plan p.
 Proof.
-  exists (mk_plan None (Some 5) f_k7). split; [vm_compute; reflexivity|]. split; [vm_compute; reflexivity|].
+  exists (mk_plan None (Some 5) xf_k7). split; [vm_compute; reflexivity|]. split; [vm_compute; reflexivity|].
   right. exists IxKinds, (MInt 7), [2; 0; 0; 0; 7]%N. repeat split; [discriminate].
 Qed.
-Example ex_k7_hypotheses : wf_filter f_k7 /\ ids_desc f_k7 /\ range_scan_refused f_k7 = false /\
-  at_most ex_store (may_match f_k7) 5 /\ must_match f_k7 ev3 = true /\ delegator_only_match f_k7 ev3 = false.
+Example ex_k7_hypotheses : wf_filter xf_k7 /\ ids_desc xf_k7 /\ range_scan_refused xf_k7 = false /\
+  at_most ex_store (may_match xf_k7) 5 /\ must_match xf_k7 ev3 = true /\ delegator_only_match xf_k7 ev3 = false.
 Proof.
   split; [repeat split; try (intros; discriminate); constructor|]. split; [intros l cms E; discriminate|].
   split; [reflexivity|]. split; [apply at_most_total; vm_compute; discriminate|]. split; reflexivity.
 Qed.
 
 (* ids + since/until: the id index *)
-Definition f_id := flt (Some [hx 51; hx 49]) None None (Some 1000) (Some 1010) None [].
-Example ex_ids : exists p, plan_one None (Some 5) f_id = Some p /\ map w_id (execute_one_plan ex_store p) = [hx 51; hx 49].
-Proof. exists (mk_plan None (Some 5) f_id). split; vm_compute; reflexivity. Qed.
-Example ex_ids_desc : ids_desc f_id.
+Definition xf_id := flt (Some [hx 51; hx 49]) None None (Some 1000) (Some 1010) None [].
+Example ex_ids : exists p, plan_one None (Some 5) xf_id = Some p /\ map w_id (execute_one_plan ex_store p) = [hx 51; hx 49].
+Proof. exists (mk_plan None (Some 5) xf_id). split; vm_compute; reflexivity. Qed.
+Example ex_ids_desc : ids_desc xf_id.
 Proof.
   intros l cms E Ec. injection E as <-. vm_compute in Ec. injection Ec as <-.
   repeat constructor.
 Qed.
 
 (* author + kind + tag: the chained multi-index *)
-Definition f_multi := flt None (Some [pk_b]) (Some [7]) None None None [(pys "t", [pys "abc"; pys "ab"])].
-Example ex_multi : exists p st, plan_one None (Some 5) f_multi = Some p /\ p_index p = PMulti st /\ length st = 2%nat /\
+Definition xf_multi := flt None (Some [pk_b]) (Some [7]) None None None [(pys "t", [pys "abc"; pys "ab"])].
+Example ex_multi : exists p st, plan_one None (Some 5) xf_multi = Some p /\ p_index p = PMulti st /\ length st = 2%nat /\
   execute_one_plan ex_store p = [ev3].
 Proof.
-  exists (mk_plan None (Some 5) f_multi), (sort_stages (plan_stages f_multi)). repeat split; vm_compute; reflexivity.
+  exists (mk_plan None (Some 5) xf_multi), (sort_stages (plan_stages xf_multi)). repeat split; vm_compute; reflexivity.
 Qed.
 
 (* since only: the created_at range scan *)
-Definition f_since := flt None None None (Some 1001) None (Some 2) [].
-Example ex_range : exists p, plan_one None (Some 5) f_since = Some p /\ p_index p = PSingle IxCreated [] /\
+Definition xf_since := flt None None None (Some 1001) None (Some 2) [].
+Example ex_range : exists p, plan_one None (Some 5) xf_since = Some p /\ p_index p = PSingle IxCreated [] /\
   map w_created (execute_one_plan ex_store p) = [1011; 1010].
-Proof. exists (mk_plan None (Some 5) f_since). repeat split; vm_compute; reflexivity. Qed.
+Proof. exists (mk_plan None (Some 5) xf_since). repeat split; vm_compute; reflexivity. Qed.
 
 (* ---- witnesses of the open findings ---- *)
 (* F16: two kinds, limit 2: the two kind-7 events are kept although both kind-6 events are newer *)
-Definition f_k76 := flt None None (Some [7; 6]) None None (Some 2) [].
+Definition xf_k76 := flt None None (Some [7; 6]) None None (Some 2) [].
 Theorem C12_kv_refuted_multi_value : exists d f p x y,
   Coherent d /\ wf_filter f /\ plan_one None (Some 5) f = Some p /\ multi_match_filter f = true /\
   stored d x /\ must_match f x = true /\ In y (execute_one_plan d p) /\ ~ In x (execute_one_plan d p) /\
   w_created y < w_created x.
 Proof.
-  exists ex_store, f_k76, (mk_plan None (Some 5) f_k76), ev2, ev3.
+  exists ex_store, xf_k76, (mk_plan None (Some 5) xf_k76), ev2, ev3.
   split; [exact ex_coherent|]. split; [repeat split; try (intros; discriminate); constructor|].
   split; [vm_compute; reflexivity|]. split; [reflexivity|]. split; [apply ex_stored|]. split; [reflexivity|].
-  assert (E : execute_one_plan ex_store (mk_plan None (Some 5) f_k76) = [ev4; ev3]) by (vm_compute; reflexivity).
+  assert (E : execute_one_plan ex_store (mk_plan None (Some 5) xf_k76) = [ev4; ev3]) by (vm_compute; reflexivity).
   rewrite E. split; [right; left; reflexivity|]. split; [|reflexivity].
   intros [H|[H|[]]]; discriminate.
 Qed.
 
 (* F07: authors [a]: the event delegated by a is stored and must match, and is not returned *)
-Definition f_au := flt None (Some [pk_a]) None None None None [].
+Definition xf_au := flt None (Some [pk_a]) None None None None [].
 Theorem C02_kv_refuted_delegator_store : exists d f p e,
   Coherent d /\ wf_filter f /\ plan_one None (Some 5) f = Some p /\ at_most d (may_match f) 5 /\
   stored d e /\ must_match f e = true /\ ~ In e (execute_one_plan d p).
 Proof.
-  exists ex_store, f_au, (mk_plan None (Some 5) f_au), ev4.
+  exists ex_store, xf_au, (mk_plan None (Some 5) xf_au), ev4.
   split; [exact ex_coherent|]. split; [repeat split; try (intros; discriminate); try constructor|].
   - intros l E. injection E as <-. repeat constructor.
   - split; [vm_compute; reflexivity|]. split; [apply at_most_total; vm_compute; discriminate|].
     split; [apply ex_stored|]. split; [reflexivity|].
-    assert (E : execute_one_plan ex_store (mk_plan None (Some 5) f_au) = [ev2; ev1]) by (vm_compute; reflexivity).
+    assert (E : execute_one_plan ex_store (mk_plan None (Some 5) xf_au) = [ev2; ev1]) by (vm_compute; reflexivity).
     rewrite E. intros [H|[H|[]]]; discriminate.
 Qed.
+
+(* ---- the keyspace hypotheses of scanner_correct are needed ---- *)
+Definition id32 (c : N) : bytes := repeat c 32.
+(* no key below the index (floor_ok fails): the entry of "ab\0\1" is the first key of the store; prev() fails on it and
+   the scan ends although the value "ab" is still to be scanned *)
+Definition ks_nofloor : list bytes :=
+  [ [9; 116; 0; 97; 98; 0; 1]%N ++ [0%N] ++ [0; 0; 0; 5]%N ++ [0%N] ++ id32 7;
+    [9; 116; 0; 97; 98]%N ++ [0%N] ++ [2; 0; 0; 0]%N ++ [0%N] ++ id32 8;
+    tombstone ].
+Example scanner_needs_floor :
+  sortedb ks_nofloor = true /\ In tombstone ks_nofloor /\
+  index_scanner ks_nofloor IxTags [MStrStr (pys "t") [97; 98; 0; 1]%N; MStrStr (pys "t") (pys "ab")] None None (fun _ => true) = SOk [id32 7] /\
+  scan_spec ks_nofloor IxTags [MStrStr (pys "t") [97; 98; 0; 1]%N; MStrStr (pys "t") (pys "ab")] None None (fun _ => true) = SOk [id32 7; id32 8].
+Proof. vm_compute. repeat split; auto. Qed.
+(* a long key that does not end with 00 ++ id (Shaped fails) is taken for an entry *)
+Definition ks_unshaped : list bytes :=
+  [ [0%N] ++ id32 1; [2; 0; 0; 0; 1]%N ++ [0%N] ++ [0; 0; 0; 9]%N ++ [1%N] ++ id32 7; tombstone ].
+Example scanner_needs_shape :
+  sortedb ks_unshaped = true /\
+  index_scanner ks_unshaped IxKinds [MInt 1] None None (fun _ => true) = SOk [id32 7] /\
+  scan_spec ks_unshaped IxKinds [MInt 1] None None (fun _ => true) = SOk [].
+Proof. vm_compute. repeat split; auto. Qed.
